@@ -2,6 +2,7 @@
 //! Fault injection with known coordinates: one fault of a known byte range is put into a known template of a
 //! valid multi-template set; the span checker recomputes everything from the source.
 use crate::core::*;
+use std::collections::BTreeSet;
 use crate::monitors::{check_report, pos};
 use serde_json::json;
 use tera::{Context, ErrorKind, Tera};
@@ -164,19 +165,34 @@ fn multi_build_case(cx: &mut Cx, rng: &mut Rng) {
         Ok(Ok(())) => cx.violation("C12/no-error/build-multi", "a batch with add-time faults was accepted".to_string(), replay),
         Ok(Err(d)) => {
             let mut why: Vec<String> = vec![];
-            for (tn, tok, needle) in &faults {
+            // the report of a fault: from the first line naming its needle up to the first line naming another fault's
+            // needle (however the reports are separated)
+            let starts: Vec<Option<usize>> = faults
+                .iter()
+                .map(|(_, _, needle)| {
+                    let mut at = 0;
+                    for line in d.split_inclusive('\n') {
+                        if line.contains(needle.as_str()) && !line.trim_start().starts_with(|c: char| c.is_ascii_digit()) && !line.contains(" | ") {
+                            return Some(at);
+                        }
+                        at += line.len();
+                    }
+                    None
+                })
+                .collect();
+            for (fi, (tn, tok, needle)) in faults.iter().enumerate() {
                 let src = &tpls.iter().find(|(n, _)| n == tn).unwrap().1;
                 let off = src.find(tok.as_str()).unwrap();
                 let (l, c) = pos(src, off).unwrap();
-                let locus = format!("--> {tn}:{l}:{}", c + 1);
-                // the report block of this fault: the one whose message line (its first line) names the needle
-                let Some(block) = d.split("\n\nerror: ").find(|b| b.lines().next().unwrap_or("").contains(needle.as_str())) else {
+                let Some(from) = starts[fi] else {
                     why.push(format!("missing-report: nothing about `{needle}` ({tn})"));
                     continue;
                 };
-                if !block.contains(&locus) {
-                    let found: Vec<&str> = block.lines().filter(|x| x.contains("-->")).collect();
-                    why.push(format!("wrong-locus: the report about `{needle}` should say `{locus}`, it says {found:?}"));
+                let to = starts.iter().flatten().filter(|x| **x > from).min().copied().unwrap_or(d.len());
+                let block = &d[from..to];
+                let found = loci(block);
+                if !found.iter().any(|(_, n, fl, fc)| n == tn && *fl == l && *fc == c + 1) {
+                    why.push(format!("wrong-locus: the report about `{needle}` should name {tn}:{l}:{}, it names {:?}", c + 1, found.iter().map(|(_, n, l, c)| format!("{n}:{l}:{c}")).collect::<Vec<_>>()));
                 }
                 let line = src.split('\n').nth(l - 1).unwrap_or("");
                 let line = line.strip_suffix('\r').unwrap_or(line);
@@ -184,7 +200,7 @@ fn multi_build_case(cx: &mut Cx, rng: &mut Rng) {
                     why.push(format!("wrong-line-quoted: the report about `{needle}` does not quote line {l} of {tn}"));
                 }
             }
-            let nrep = d.split("\n\nerror: ").count();
+            let nrep = starts.iter().flatten().collect::<BTreeSet<_>>().len();
             if nrep != faults.len() {
                 why.push(format!("report-count: {nrep} reports for {} faults", faults.len()));
             }
@@ -194,6 +210,27 @@ fn multi_build_case(cx: &mut Cx, rng: &mut Rng) {
             }
         }
     }
+}
+
+/// every `name:line:column` written in a report, in order of appearance — whatever surrounds it (`-->`, "called from",
+/// brackets): the property fixes that call sites and positions are named, not how
+fn loci(text: &str) -> Vec<(usize, String, usize, usize)> {
+    let mut out = vec![];
+    let mut at = 0;
+    for tok in text.split_inclusive(char::is_whitespace) {
+        let start = at;
+        at += tok.len();
+        let t = tok.trim().trim_start_matches(|c: char| !(c.is_alphanumeric() || c == '_')).trim_end_matches(|c: char| !c.is_ascii_digit());
+        let mut it = t.rsplitn(3, ':');
+        if let (Some(c), Some(l), Some(n)) = (it.next(), it.next(), it.next()) {
+            if let (Ok(c), Ok(l)) = (c.parse::<usize>(), l.parse::<usize>()) {
+                if !n.is_empty() && !n.contains(char::is_whitespace) {
+                    out.push((start, n.to_string(), l, c));
+                }
+            }
+        }
+    }
+    out
 }
 
 /// two of the default delimiters share a character somewhere in the text (`}}}`, `{{%`, …): re-spelling it delimiter by
@@ -427,52 +464,49 @@ pub fn run(cx: &mut Cx) {
                                 5 | 6 => 2,
                                 _ => 0,
                             };
-                            let notes = d.matches("note: called from").count();
-                            if notes != want_notes {
-                                why.push(format!("call-site-notes: {notes} `note: called from` for {want_notes} call site(s)"));
-                            }
-                            // every call-site note names the calling template, innermost first
+                            // every call site is named (template:line:column), innermost first, after the position of the
+                            // error itself; how the report words it is not the property's business
                             let callers: Vec<&str> = match placement {
                                 3 | 4 => vec![entry_name],
                                 5 | 6 => vec!["inc.html", entry_name],
                                 _ => vec![],
                             };
-                            let mut rest = d.as_str();
-                            for c in callers {
-                                match rest.find("note: called from") {
-                                    Some(i) => {
-                                        let after = &rest[i..];
-                                        let line = after.lines().next().unwrap_or("");
-                                        if !line.contains(c) {
-                                            why.push(format!("call-site-note-wrong-template: `{line}` should name {c}"));
-                                        } else if let Some((_, csrc)) = tpls.iter().find(|(n, _)| n == c) {
-                                            // the note's line:column must designate a position inside the call construct
-                                            cx.count("call_site_positions_checked", 1);
-                                            let (inc_open, call_open) = (format!("{d_bs} include"), format!("{d_vs} <faulty"));
-                                            let (from, to) = match csrc.find(&inc_open).or_else(|| csrc.find(&call_open)) {
-                                                Some(a) => {
-                                                    let close = if csrc[a..].starts_with(&inc_open) { d_be } else { d_ve };
-                                                    (a, a + csrc[a..].find(close).map(|x| x + close.len()).unwrap_or(csrc.len() - a))
-                                                }
-                                                None => (0, csrc.len()),
-                                            };
-                                            let mut nums = line.rsplit(':').take(2).map(|x| x.trim().parse::<usize>());
-                                            match (nums.next(), nums.next()) {
-                                                (Some(Ok(col)), Some(Ok(ln))) if ln >= 1 && col >= 1 => {
-                                                    let lstart: usize = csrc.split_inclusive('\n').take(ln - 1).map(|l| l.len()).sum();
-                                                    let lsrc = csrc[lstart.min(csrc.len())..].split('\n').next().unwrap_or("");
-                                                    let boff = lsrc.char_indices().nth(col - 1).map(|(b, _)| b).unwrap_or(lsrc.len());
-                                                    let at = lstart + boff;
-                                                    if ln > csrc.split('\n').count() || at < from || at > to {
-                                                        why.push(format!("call-site-note-wrong-position: `{line}` designates byte {at} of {c}, the call construct spans {from}..{to}"));
-                                                    }
-                                                }
-                                                _ => why.push(format!("call-site-note-unparsable: `{line}`")),
-                                            }
+                            let mut named: Vec<(String, usize, usize)> = vec![];
+                            for (_, n, l, c) in loci(&d) {
+                                if n != faulty_name && named.last().map(|x| (&x.0, x.1, x.2)) != Some((&n, l, c)) {
+                                    named.push((n, l, c));
+                                }
+                            }
+                            if named.len() != callers.len() {
+                                why.push(format!("call-site-notes: {} call site(s) named ({:?}) for {} call site(s)", named.len(), named, callers.len()));
+                            }
+                            for (c, (n, ln, col)) in callers.iter().zip(named.iter()) {
+                                let line = format!("{n}:{ln}:{col}");
+                                if n != c {
+                                    why.push(format!("call-site-note-wrong-template: `{line}` should name {c}"));
+                                } else if let Some((_, csrc)) = tpls.iter().find(|(n, _)| n == c) {
+                                    // the note's line:column must designate a position inside the call construct
+                                    cx.count("call_site_positions_checked", 1);
+                                    let (inc_open, call_open) = (format!("{d_bs} include"), format!("{d_vs} <faulty"));
+                                    let (from, to) = match csrc.find(&inc_open).or_else(|| csrc.find(&call_open)) {
+                                        Some(a) => {
+                                            let close = if csrc[a..].starts_with(&inc_open) { d_be } else { d_ve };
+                                            (a, a + csrc[a..].find(close).map(|x| x + close.len()).unwrap_or(csrc.len() - a))
                                         }
-                                        rest = &after[17..];
+                                        None => (0, csrc.len()),
+                                    };
+                                    let (ln, col) = (*ln, *col);
+                                    if ln >= 1 && col >= 1 {
+                                        let lstart: usize = csrc.split_inclusive('\n').take(ln - 1).map(|l| l.len()).sum();
+                                        let lsrc = csrc[lstart.min(csrc.len())..].split('\n').next().unwrap_or("");
+                                        let boff = lsrc.char_indices().nth(col - 1).map(|(b, _)| b).unwrap_or(lsrc.len());
+                                        let at = lstart + boff;
+                                        if ln > csrc.split('\n').count() || at < from || at > to {
+                                            why.push(format!("call-site-note-wrong-position: `{line}` designates byte {at} of {c}, the call construct spans {from}..{to}"));
+                                        }
+                                    } else {
+                                        why.push(format!("call-site-note-unparsable: `{line}`"));
                                     }
-                                    None => break,
                                 }
                             }
                         }
@@ -483,10 +517,9 @@ pub fn run(cx: &mut Cx) {
                             if !d.contains(&needle) {
                                 why.push(format!("build-report-does-not-name-the-reference: {needle}"));
                             }
-                            let locus = format!("--> {faulty_name}:{l}:{}", c + 1);
-                            if !d.contains(&locus) {
-                                let found: Vec<&str> = d.lines().filter(|x| x.contains("-->")).collect();
-                                why.push(format!("build-report-locus: expected `{locus}`, report has {found:?}"));
+                            let found = loci(&d);
+                            if !found.iter().any(|(_, n, fl, fc)| n == faulty_name && *fl == l && *fc == c + 1) {
+                                why.push(format!("build-report-locus: expected {faulty_name}:{l}:{}, the report names {:?}", c + 1, found.iter().map(|(_, n, l, c)| format!("{n}:{l}:{c}")).collect::<Vec<_>>()));
                             }
                             let line = src.split('\n').nth(l - 1).unwrap_or("");
                             let line = line.strip_suffix('\r').unwrap_or(line);
